@@ -1,6 +1,10 @@
 package reader
 
-import "encoding/json"
+import (
+	"encoding/json"
+
+	schedpkg "github.com/zilliztech/milvus-cdc/core/verifkit/sched"
+)
 
 func jsonUnmarshalR(b []byte, v interface{}) error { return json.Unmarshal(b, v) }
 
@@ -8,3 +12,5 @@ func init() {
 	// as cmd/main does by default; the lock-order checker spawns timer goroutines outside the bubble
 	deadlockDisable()
 }
+
+func schedGoid() int64 { return schedpkg.Goid() }
